@@ -122,6 +122,15 @@ func (s *vfStore) Put(path string, data []byte) {
 	s.mu.Unlock()
 }
 
+// SetMode replaces the mode (type and permission bits) reported for an existing entry.
+func (s *vfStore) SetMode(path string, mode os.FileMode) {
+	s.mu.Lock()
+	defer s.mu.Unlock()
+	if f, ok := s.files[path]; ok {
+		f.mode = mode
+	}
+}
+
 func (s *vfStore) Mkdir(path string) {
 	s.mu.Lock()
 	s.files[path] = &vfFile{isDir: true, mode: os.ModeDir | 0o755, mtime: s.Now}
